@@ -88,7 +88,8 @@ class Harness:
             first_e.setdefault((d_["service"], d_["os"]), n_)
         for n_, d_ in spec.privescs.items():
             first_p.setdefault((d_["process"], d_["os"]), n_)
-        self.expressible = set(first_e.values()) | set(first_p.values())
+        # (kind, name): an exploit and an escalation may carry the same name
+        self.expressible = {("exploit", n_) for n_ in first_e.values()} | {("privesc", n_) for n_ in first_p.values()}
         self.real_index = {}
         for i, a in enumerate(self.real_actions):
             self.real_index.setdefault(real_key(a), i)
@@ -127,7 +128,7 @@ class Harness:
             return int(i)
         # parameterised space: the documented parameter vector where the action is expressible
         # (first definition per (service, OS) / (process, OS)), else the Action object
-        if act.kind not in ("exploit", "privesc") or act.name in self.expressible:
+        if act.kind not in ("exploit", "privesc") or (act.kind, act.name) in self.expressible:
             from .check_c12 import vector_of
             return vector_of(self.spec, act)
         return self.real_actions[i]
